@@ -195,7 +195,12 @@ fn main() {
             seg::seg_pairs(&mut out, if thorough { 1 } else { 8 });
             extra.push(("pair_stride".into(), (if thorough { 1 } else { 8 }).to_string()));
         }
-        "seg-layout" => { seg::seg_layouts(&mut out, &mut rng, thorough); }
+        "seg-layout" => {
+            seg::seg_layouts(&mut out, &mut rng, thorough);
+            let (n, f) = fuzz::fuzz_layouts(&mut out, seed, if thorough { 6000 } else { 700 });
+            extra.push(("fuzz_operations".into(), n.to_string()));
+            extra.push(("fuzz_failed".into(), f.to_string()));
+        }
         s if s.starts_with("inject-") => {
             let coll = &s[7..];
             let (points, ops) = if coll == "seg" {
